@@ -17,16 +17,32 @@ G = np.arange(6796)
 C = np.arange(6240)
 
 
-def snapshot(dt):
+def snapshot(dt, group=None):
+    """lookups of every accessor (group None) or of every second one (group 0 / 1), with index dtype `dt`"""
+    full = _snapshot_all(dt, group)
+    return full
+
+
+def _in(group, counter):
+    counter[0] += 1
+    return group is None or counter[0] % 2 == group
+
+
+def _snapshot_all(dt, group):
     s = {}
+    c = [0]
     for k in ["superlayer", "layer", "wire", "stereo", "is_stereo", "west_x", "west_y", "west_z", "east_x", "east_y", "east_z"]:
-        s["mdc." + k] = np.asarray(getattr(pybes3, "mdc_gid_to_" + k)(G.astype(dt)))
+        if _in(group, c):
+            s["mdc." + k] = np.asarray(getattr(pybes3, "mdc_gid_to_" + k)(G.astype(dt)))
     for k in ["part", "theta", "phi", "center_x", "center_y", "center_z", "front_center_x", "front_center_y", "front_center_z"]:
-        s["emc." + k] = np.asarray(getattr(pybes3, "emc_gid_to_" + k)(C.astype(dt)))
+        if _in(group, c):
+            s["emc." + k] = np.asarray(getattr(pybes3, "emc_gid_to_" + k)(C.astype(dt)))
     for ax in "xyz":
-        for p in range(8):
-            s[f"emc.points_{ax}_{p}"] = np.asarray(getattr(pybes3, "emc_gid_to_point_" + ax)(C.astype(dt), np.full(len(C), p, dtype=dt)))
-    s["mdc.z_to_x"] = np.asarray(pybes3.mdc_gid_z_to_x(G.astype(dt), np.full(len(G), 12.5)))
+        if _in(group, c):
+            for p in range(8):
+                s[f"emc.points_{ax}_{p}"] = np.asarray(getattr(pybes3, "emc_gid_to_point_" + ax)(C.astype(dt), np.full(len(C), p, dtype=dt)))
+    if _in(group, c):
+        s["mdc.z_to_x"] = np.asarray(pybes3.mdc_gid_z_to_x(G.astype(dt), np.full(len(G), 12.5)))
     return s
 
 
@@ -41,6 +57,8 @@ def published():
 
 def compare(tag, snap, ref):
     for k, v in ref.items():
+        if k not in snap:
+            continue
         out["steps"] += 1
         a = np.asarray(snap[k])
         if a.shape != v.shape or not np.array_equal(a.astype(np.float64), v.astype(np.float64)):
@@ -51,9 +69,11 @@ def compare(tag, snap, ref):
 
 
 ref = published()
-first = snapshot("int64")          # kernels for int64 compiled BEFORE any table is handed out
-ref["mdc.z_to_x"] = first["mdc.z_to_x"]
-compare("initial lookups (int64)", first, ref)
+# numba reuses a compiled loop for every dtype that casts safely to it (int32 -> int64 ...): a kernel is compiled *after* a table was handed
+# out only if it has not been called at all before (group 1 below), or if it is called with uint64 (no safe cast to the int64 loop)
+first = snapshot("int64", group=0)          # half of the kernels compiled (int64) BEFORE any table is handed out
+ref["mdc.z_to_x"] = np.asarray(npz_m["west_x"] + (npz_m["east_x"] - npz_m["west_x"]) / (npz_m["east_z"] - npz_m["west_z"]) * (12.5 - npz_m["west_z"]))
+compare("initial lookups (int64)", first, {k: v for k, v in ref.items() if k != "mdc.z_to_x"})
 
 
 def mutate(tbl, lib):
@@ -124,9 +144,9 @@ for lib in libs:
     table_vs_published(lib, t1, t2)
     mutate(t1, lib)
     mutate(t2, lib)
-    dt = {"np": "int32", "ak": "uint16", "pd": "int16"}[lib]       # kernels for this dtype are compiled only NOW
-    compare(f"get tables ({lib}); modify every column in place; lookups with already compiled kernels", snapshot("int64"), ref)
-    compare(f"get tables ({lib}); modify every column in place; lookups with kernels compiled afterwards ({dt})", snapshot(dt), ref)
+    compare(f"get tables ({lib}); modify every column in place; lookups with already compiled kernels (int32 input)", snapshot("int32", group=0), ref)
+    late = {"np": ("int64", 1), "ak": ("uint64", 0), "pd": ("uint64", 1)}.get(lib, ("uint64", None))
+    compare(f"get tables ({lib}); modify every column in place; lookups with kernels compiled only now ({late[0]}, accessor group {late[1]})", snapshot(late[0], group=late[1]), ref)
     # a second retrieval must hand out published values again
     again_m = pybes3.get_mdc_wire_position(library="np")
     again_e = pybes3.get_emc_crystal_position(library="np")
